@@ -2984,12 +2984,24 @@ def classify_scheduler(ctx, W):
                 cond, body = ks[-2], ks[-1]
             elif k == 'DoStmt' and len(ks) >= 2:
                 body, cond = ks[0], ks[1]
-            elif k == 'ForStmt' and len(ks) >= 2:
+            elif k == 'ForStmt' and len(ks) >= 1:
                 body = ks[-1]
                 conds = [y for y in ks[:-1] if y.get('kind') not in ('DeclStmt',) and 'type' in y and
                          (y.get('type', {}).get('qualType') == 'bool')]
                 cond = conds[0] if conds else None
             else:
+                continue
+            infinite = (k == 'ForStmt' and cond is None) or (cond is not None and core(tu, cond) is not None and
+                                                             core(tu, cond).get('kind') == 'CXXBoolLiteralExpr' and core(tu, cond).get('value'))
+            if infinite and mentions(body, runners):
+                # runs tasks as long as there are some (`if (ran) continue;`) and leaves only through a guarded break / return
+                keeps_running = any(y.get('kind') == 'IfStmt' and len(tu.kids(y)) >= 2 and mentions(tu.kids(y)[0], runners) and
+                                    any(z.get('kind') == 'ContinueStmt' for z in tu.walk(tu.kids(y)[1])) for y in tu.walk(body))
+                guards = [tu.kids(y)[0] for y in tu.walk(body) if y.get('kind') == 'IfStmt' and len(tu.kids(y)) >= 2 and
+                          any(z.get('kind') in ('BreakStmt', 'ReturnStmt') for z in tu.walk(tu.kids(y)[1]))]
+                if keeps_running and guards and mentions(body, checkers):
+                    drains.add(f['q'])
+                    drain_loops.setdefault(f['q'], []).append((f, L, guards[-1]))
                 continue
             if cond is None or not mentions(body, runners):
                 continue
@@ -3066,9 +3078,14 @@ def classify_scheduler(ctx, W):
             if k == 'ForStmt':
                 cs = [y for y in ks[:-1] if 'type' in y and y.get('type', {}).get('qualType') == 'bool']
                 cond = cs[0] if cs else None
-            if cond is None:
+            extra = []
+            if k in ('ForStmt', 'WhileStmt', 'DoStmt') and ks:
+                bd = ks[0] if k == 'DoStmt' else ks[-1]
+                extra = [tu.kids(y)[0] for y in tu.walk(bd) if y.get('kind') == 'IfStmt' and len(tu.kids(y)) >= 2 and
+                         any(z.get('kind') in ('BreakStmt', 'ReturnStmt') for z in tu.walk(tu.kids(y)[1]))]
+            if cond is None and not extra:
                 continue
-            srcs, seenv = [cond], set()
+            srcs, seenv = ([cond] if cond is not None else []) + extra, set()
             while srcs and not aware:
                 e0 = srcs.pop()
                 for y in tu.walk(e0):
@@ -4682,7 +4699,8 @@ def check_wait_drains(ctx, W):
 
 # ---- positive / negative examples that must be classified as stated on every run (witness/c02_tasksets.cpp)
 EXPECT_OVERRIDES = {'rkverif::c02w::SelfDelete::ExecuteRange': True, 'rkverif::c02w::ViaMethod::ExecuteRange': True,
-                    'rkverif::c02w::ViaHelper::ExecuteRange': True, 'rkverif::c02w::KeepsItself::ExecuteRange': False}
+                    'rkverif::c02w::ViaHelper::ExecuteRange': True, 'rkverif::c02w::KeepsItself::ExecuteRange': False,
+                    'rkverif::c02w::BareStarter::LocalTask::ExecuteRange': False}
 EXPECT_DELETES = {'rkverif::c02w::reapGuarded': False, 'rkverif::c02w::reapAfterWait': False,
                   'rkverif::c02w::reapUnguarded': True, 'rkverif::c02w::neverScheduled': False,
                   'rkverif::c02w::sweepThenSchedule': False,   # guarded, hence fine for (iii); (iv) flags its order
@@ -4896,7 +4914,7 @@ def floors(ctx, r, tag=''):
     ctx.floor(R4, r['n4'], 9, '~AsyncTask x 2 instantiations x 4 backends + WaitforTask' + tag)
     ctx.floor(R5, r['n5'], 8, 'async<IntJob>, async<StringJob&> x 4 backends' + tag)
     ctx.floor(R6, r['n6'], 5, 'ExecuteRange overrides: schedule_internal x 3, AsyncTaskImpl, parallel_for_internal' + tag)
-    ctx.floor(R6, r['nsites'], 2, 'ExecuteRange call sites in TaskScheduler.cpp: 3' + tag)
+    ctx.floor(R6, r['nsites'], 1, 'ExecuteRange call sites in TaskScheduler.cpp (3 on the pinned tree; one is enough to mine the obligation)' + tag)
     ctx.floor(R14, r['n14'], 1, 'loops that steal from the pipes of other threads: TryRunTask' + tag)
     ctx.floor(R15, r['n15'], 1, 'writers of the slot ring: LockLessMultiReadPipe::WriterTryWriteFront' + tag)
     ctx.floor(R16, r['n16'], 1, 'shared containers that register detached tasks: g_detached' + tag)
